@@ -1139,6 +1139,16 @@ class TwoDSpectrumBase(DataSaveable):
                                     " 'types'. Tag would be ignored and"+
                                     " information lost")
                 self.set_data_flag(dtype)
+                if self.storage_resolution == "pathways":
+                    # data without a tag accumulate under the tag None;
+                    # they must not include the tagged pathways of the type
+                    piece = self._d__data.setdefault(dtype, {})
+                    if None in piece:
+                        piece[None] = piece[None] + data
+                    else:
+                        piece[None] = data
+                    return
+                    
                 try:
                     odata = self.d__data
                 except:
